@@ -546,11 +546,13 @@ def coalesceOp (run : Run) (ms : List Expr) (op : Op) (o : V) : M V :=
 
 /-- `Map._iterate_over_options`: evaluate the iterables, take the product -/
 def mapAssignments (run : Run) (its : List (String × Expr)) (o : V) : M (List (List (String × V))) := do
-  let cols ← mapM' (fun (p : String × Expr) => do
-    let v ← run .evaluate p.2 o
+  -- `itertools.product(*(it.evaluate(options) for it in …))`: every iterable is evaluated before
+  -- `product` looks at any of them
+  let vals ← mapM' (fun (p : String × Expr) => run .evaluate p.2 o) its
+  let cols ← mapM' (fun v =>
     match iterElems v with
     | some xs => pure xs
-    | Option.none => raise (errOther "TypeError")) its
+    | Option.none => raise (errOther "TypeError")) vals
   pure ((product cols).map fun row => (its.map Prod.fst).zip row)
 
 def mapElement (id : Nat) (x : Expr) (a : List (String × V)) : M Expr :=
